@@ -580,6 +580,46 @@ func init() {
 		}
 		e.P("def videoMetaReadyShape : List String := %s", LeanStrList(vmrShape))
 
+		// ---------- service/flv: the client ends ----------
+		for _, sv := range []struct{ file, fn, recv, lean string }{
+			{"service/flv/httpflv.go", "ConsumeByHTTP", "httpFlvConsumer", "http"},
+			{"service/flv/wsflv.go", "ConsumeByWebsocket", "wsFlvConsumer", "ws"},
+		} {
+			f := Parse(sv.file)
+			fn := FuncDecl(f, "", sv.fn)
+			cons := FuncDecl(f, sv.recv, "Consume")
+			newWriter, startConsume, write := "", "", ""
+			if fn != nil {
+				ast.Inspect(fn, func(n ast.Node) bool {
+					if c, ok := n.(*ast.CallExpr); ok {
+						switch src1(c.Fun) {
+						case "flv.NewWriter":
+							newWriter = src1(c)
+						case "stream.StartConsume":
+							startConsume = src1(c.Fun) + "(" + src1(c.Args[0]) + ", " + src1(c.Args[1]) + ", ...)"
+						}
+					}
+					return true
+				})
+			}
+			if cons != nil {
+				ast.Inspect(cons, func(n ast.Node) bool {
+					if c, ok := n.(*ast.CallExpr); ok && strings.HasSuffix(src1(c.Fun), ".WriteFlvTag") {
+						write = src1(c)
+					}
+					return true
+				})
+			}
+			if fn == nil || cons == nil {
+				e.Unknown(sv.fn)
+			}
+			e.P("/-- %s: where the type flags come from, the writer, the registration, the per-tag write -/", sv.file)
+			e.P("def %sTypeFlags : List String := %s", sv.lean, LeanStrList(localDefs(fn, "typeFlags")))
+			e.P("def %sNewWriter : String := %s", sv.lean, LeanStr(newWriter))
+			e.P("def %sStartConsume : String := %s", sv.lean, LeanStr(startConsume))
+			e.P("def %sConsumeWrite : String := %s", sv.lean, LeanStr(write))
+		}
+
 		// muxMetadataTag: property names in source order, with the audio block marked
 		mm := FuncDecl(muxgo, "Muxer", "muxMetadataTag")
 		var props []string
